@@ -78,3 +78,107 @@ Theorem C11_validation_entry_of_new_verifies : forall pid, Eltorito.platform_ok 
   exists v, Eltorito.val_new pid = Some v /\ Eltorito.val_ok v = true /\ Eltorito.v_platform_id v = pid /\
             et_word_sum (Eltorito.val_bytes v) mod 65536 = 0 /\ Eltorito.val_parse (Eltorito.val_bytes v) = Some v.
 Proof. exact EltoritoProofs.val_new_ok. Qed.
+
+(* ---- El Torito over whole edit histories: Model/AccountBoot.v (state machine on top of AccountLinks: add_eltorito first call and further sections, boot info tables, rm_eltorito, hard links and removals of boot files and catalog names; plain ISO9660 level 3).  For EVERY history: *)
+From PV.Base Require Prim.
+From PV.Gen Require GenConst GenFun.
+From PV.Model Require Names Pack Alloc Codec Eltorito Account AccountLinks AccountBoot.
+From PV.Proofs Require PackProofs AllocProofs AccountLemmas AccountProofs AccountLinksLemmas AccountLinksPurge AccountLinksInv AccountBootLemmas AccountBootInv AccountBootInv2 AccountBootFix AccountBootProofs AccountBootProofs2.
+Section AccountBootStatements.
+Import PV.Base.Prim PV.Gen.GenConst PV.Gen.GenFun PV.Model.Names PV.Model.Pack PV.Model.Alloc PV.Model.Codec PV.Model.Eltorito PV.Model.Account PV.Model.AccountLinks PV.Model.AccountBoot PV.Proofs.PackProofs PV.Proofs.AllocProofs PV.Proofs.AccountLemmas PV.Proofs.AccountProofs PV.Proofs.AccountLinksLemmas PV.Proofs.AccountLinksPurge PV.Proofs.AccountLinksInv PV.Proofs.AccountBootLemmas PV.Proofs.AccountBootInv PV.Proofs.AccountBootInv2 PV.Proofs.AccountBootFix PV.Proofs.AccountBootProofs PV.Proofs.AccountBootProofs2.
+Local Open Scope Z_scope.
+Theorem C11_boot_declared_size_is_exact ops : lspace (bl (brun binit ops)) = blayout_end (brun binit ops).
+Proof. first [exact (@ab_space_exact) | apply (@ab_space_exact) | intros; eapply (@ab_space_exact); eassumption]. Qed.
+
+Theorem C11_boot_file_cannot_vanish ops :
+  let s := brun binit ops in
+  NoDup (ids (linodes (bl s))) /\
+  (* every El Torito entry's inode is in self.inodes ... *)
+  (forall b, bboot s = Some b -> Forall (fun i => In i (ids (linodes (bl s)))) (binos b)) /\
+  (* ... and nothing stays in self.inodes without a directory record or an El Torito entry *)
+  (forall i, In i (ids (linodes (bl s))) -> 0 < lrefcount i (lroot (bl s)) + erefs i (bboot s)).
+Proof. first [exact (@ab_boot_file_cannot_vanish) | apply (@ab_boot_file_cannot_vanish) | intros; eapply (@ab_boot_file_cannot_vanish); eassumption]. Qed.
+
+Theorem C11_boot_objects_disjoint_and_inside ops :
+  let s := brun binit ops in
+  ForallOrdPairs disjoint (blayout s) /\
+  Forall (fun iv => 0 <= fst iv /\ fst iv + snd iv <= lspace (bl s)) (blayout s).
+Proof. first [exact (@ab_objects_disjoint_and_inside) | apply (@ab_objects_disjoint_and_inside) | intros; eapply (@ab_objects_disjoint_and_inside); eassumption]. Qed.
+
+Theorem C11_catalog_points_at_files ops b :
+  let s := brun binit ops in
+  bboot s = Some b ->
+  In (17, 1) (blayout s) /\ In (cat_extent s, 1) (blayout s) /\
+  length (entry_rbas s) = S (length (c_sections (bcat b))) /\
+  (forall k i, nth_error (binos b) k = Some i ->
+     In i (ids (linodes (bl s))) /\
+     exists e, ino_extent s i = Some e /\ nth_error (entry_rbas s) k = Some e /\
+               In (e, blk_of s i) (blayout s) /\ cat_extent s < e /\
+               e + blk_of s i <= lspace (bl s)).
+Proof. first [exact (@ab_catalog_points_at_files) | apply (@ab_catalog_points_at_files) | intros; eapply (@ab_catalog_points_at_files); eassumption]. Qed.
+
+Theorem C11_load_rba_is_the_files_own_extent ops b k i :
+  let s := brun binit ops in
+  bboot s = Some b -> nth_error (binos b) k = Some i ->
+  len_of i (linodes (bl s)) <> 0 /\
+  exists e, nth_error (entry_rbas s) k = Some e /\ ino_extent s i = Some e /\
+            0 < blk_of s i /\ cat_extent s < e /\ e + blk_of s i <= lspace (bl s) /\
+            forall j ej, j <> i -> ino_extent s j = Some ej -> disjoint (e, blk_of s i) (ej, blk_of s j).
+Proof. first [exact (@ab_load_rba_own_extent) | apply (@ab_load_rba_own_extent) | intros; eapply (@ab_load_rba_own_extent); eassumption]. Qed.
+
+Theorem C11_boot_info_tables_only_on_boot_files ops i :
+  let s := brun binit ops in In i (bbits s) -> 0 < erefs i (bboot s) /\ In i (ids (linodes (bl s))).
+Proof. first [exact (@ab_bits_on_boot_files) | apply (@ab_bits_on_boot_files) | intros; eapply (@ab_bits_on_boot_files); eassumption]. Qed.
+
+Theorem C11_boot_refused_edit_changes_nothing s o s' : bstep s o = (s', Ref) -> s' = s.
+Proof. first [exact (@ab_refused_unchanged) | apply (@ab_refused_unchanged) | intros; eapply (@ab_refused_unchanged); eassumption]. Qed.
+
+Theorem C11_late_refusal_only_on_first_call s o s' : bstep s o = (s', Late) ->
+  bboot s = None /\ bwreck s = false /\
+  s' = {| bl := bl s; bboot := bboot s; bbits := bbits s; bwreck := true |}.
+Proof. first [exact (@ab_late_is_first_call) | apply (@ab_late_is_first_call) | intros; eapply (@ab_late_is_first_call); eassumption]. Qed.
+
+Theorem C11_rm_eltorito_exact_after_every_history ops b :
+  let s := brun binit ops in
+  bwreck s = false -> bboot s = Some b ->
+  let s' := fst (bstep s BRmEltorito) in
+  snd (bstep s BRmEltorito) = Acc /\ bboot s' = None /\
+  lrecords [] (lroot (bl s')) =
+    filter (fun r => negb (mem (snd r) (cat_recs b))) (lrecords [] (lroot (bl s))) /\
+  (forall i, In i (ids (linodes (bl s'))) <->
+             In i (ids (linodes (bl s))) /\ ~ (In i (binos b) /\ lrefcount i (lroot (bl s)) = 0)) /\
+  lspace (bl s') = lspace (bl s) - 2
+                   - (ltotal lw_dblk (lroot (bl s)) - ltotal lw_dblk (lroot (bl s')))
+                   - (tbl_sum (linodes (bl s)) - tbl_sum (linodes (bl s'))).
+Proof. first [exact (@ab_rm_eltorito_exact_run) | apply (@ab_rm_eltorito_exact_run) | intros; eapply (@ab_rm_eltorito_exact_run); eassumption]. Qed.
+
+Theorem C11_load_rba_before_the_empty_boot_file_fix_refuted :
+  (exists ops i j, let s := brun_gen false binit ops in
+     bwreck s = false /\ (exists b, bboot s = Some b /\ In i (binos b)) /\ i <> j /\
+     len_of j (linodes (bl s)) <> 0 /\ ino_extent s i = ino_extent s j /\ ino_extent s i <> None) /\
+  (exists ops, let s := brun_gen false binit ops in
+     bwreck s = false /\ entry_rbas s = [lspace (bl s)]).
+Proof. first [exact (@ab_load_rba_own_extent_refuted_old) | apply (@ab_load_rba_own_extent_refuted_old) | intros; eapply (@ab_load_rba_own_extent_refuted_old); eassumption]. Qed.
+
+Theorem C11_refused_add_eltorito_before_the_fix_refuted :
+  exists ops o, let s := brun_gen false binit ops in
+    snd (bstep_gen false s o) = Late /\ bwreck (fst (bstep_gen false s o)) = false /\
+    bbits s = [] /\ bbits (fst (bstep_gen false s o)) = [1%nat] /\
+    erefs 1 (bboot (fst (bstep_gen false s o))) = 0 /\
+    (* the current code on the same input: refused, nothing changed *)
+    bstep (brun binit ops) o = (brun binit ops, Ref).
+Proof. first [exact (@ab_refused_unchanged_refuted_old) | apply (@ab_refused_unchanged_refuted_old) | intros; eapply (@ab_refused_unchanged_refuted_old); eassumption]. Qed.
+
+Theorem C11_first_call_late_refusal_wrecks :
+  exists ops o, let s := brun binit ops in
+    bwreck s = false /\ snd (bstep s o) = Late /\ bwreck (fst (bstep s o)) = true.
+Proof. first [exact (@ab_late_refusal_wrecks) | apply (@ab_late_refusal_wrecks) | intros; eapply (@ab_late_refusal_wrecks); eassumption]. Qed.
+
+Example C11_boot_history_nonvacuous :
+  BInv (brun binit ab_ex_ops) /\ check_case (combine ab_ex_ops (brun_obs ab_ex_ops)) = true.
+Proof. first [exact (@ab_ex_history_inv) | apply (@ab_ex_history_inv) | intros; eapply (@ab_ex_history_inv); eassumption]. Qed.
+
+Theorem C11_boot_files_nonempty_after_every_history ops : BFix (brun binit ops).
+Proof. first [exact (@ab_run_fix) | apply (@ab_run_fix) | intros; eapply (@ab_run_fix); eassumption]. Qed.
+
+End AccountBootStatements.
